@@ -481,7 +481,7 @@ def smoothing_inputs(rng, t):
     n = int(rng.integers(20, 260))
     sgn = rng.choice([1, -1])
     base = np.linspace(0, 1, n) * sgn
-    kind = int(rng.integers(0, 7))
+    kind = int(rng.integers(0, 8))
     window = 15 if rng.random() < 0.6 else int(rng.choice(
         [1, 2, 3, 4, 5, 7, 8, 9, 11, 21, 31, 33, 64]))
     if kind == 0:
@@ -512,6 +512,17 @@ def smoothing_inputs(rng, t):
         y[k:k + b] = v
         y[k + b:] = np.linspace(2e-9, 5e-6, n - k - b)
         y = y * sgn
+    elif kind == 7:
+        # a short, slow segment whose noise is far above its whole span: the
+        # filtered data stay non-monotonic until the window exceeds the
+        # array (the doubling loop must go on beyond the array length)
+        # (lengths just below a window of the doubling sequence 15, 31,
+        # 63: much of that window still hangs over the ends)
+        n = int(rng.choice([27, 28, 29, 30, 56, 57, 58, 59, 60, 61, 62,
+                            int(rng.integers(12, 70))]))
+        window = 15
+        y = np.linspace(0, 1, n) * sgn * rng.uniform(0.01, 0.3) \
+            + rng.normal(0, 1.0, n)
     else:
         # strictly monotone data: fixed point (C07_smooth_fixed_point)
         y = np.cumsum(rng.uniform(1e-3, 1, n)) * sgn
